@@ -191,51 +191,93 @@ func ruleVD8(c *Ctx) {
 				sub := construct + "@" + cn
 				// guard inside the callback on a lookup of "epic" in a map[string]string
 				okGuard, why := false, "no validated lookup of the \"epic\" key"
-				eachInstr(cb, func(r instrRef) {
-					lk, ok := r.In.(*ssa.Lookup)
-					if !ok || !lk.CommaOk {
-						return
-					}
-					if k, ok := constString(lk.Index); !ok || k != "epic" {
-						return
-					}
-					var val, okv ssa.Value
-					for _, u := range *lk.Referrers() {
-						if ex, ok := u.(*ssa.Extract); ok {
-							if ex.Index == 0 {
-								val = ex
+				// guardIn: inside g, are all `sites` dominated by the validation of m["epic"] (m being, after parameter
+				// substitution by e, the map handed down the chain)?
+				guardIn := func(g *ssa.Function, sites []*ssa.BasicBlock, e env) {
+					eachInstr(g, func(r instrRef) {
+						lk, ok := r.In.(*ssa.Lookup)
+						if !ok || !lk.CommaOk {
+							return
+						}
+						if k, ok := constString(lk.Index); !ok || k != "epic" {
+							return
+						}
+						var val, okv ssa.Value
+						for _, u := range *lk.Referrers() {
+							if ex, ok := u.(*ssa.Extract); ok {
+								if ex.Index == 0 {
+									val = ex
+								} else {
+									okv = ex
+								}
+							}
+						}
+						if val == nil {
+							return
+						}
+						vcan := c.canon(val)
+						bypass := c.emptyStringEdges(g, vcan)
+						if okv != nil {
+							for e := range edgesWhere(g, func(a Atom, holds bool) bool { return a.Kind == "bool" && !holds && strip(a.X) == okv }) {
+								bypass[e] = true
+							}
+						}
+						all, w := len(sites) > 0, ""
+						for _, site := range sites {
+							if gd, w1 := c.epicGuardOK(g, site, vcan, bypass); !gd {
+								all, w = false, w1
+							}
+						}
+						if all {
+							// the guarded map is the one handed down the chain
+							handed := false
+							for _, a := range ch.CallInCallback.Common().Args {
+								if c.canon(a) == c.canonEnv(lk.X, e) {
+									handed = true
+								}
+							}
+							if handed {
+								okGuard = true
 							} else {
-								okv = ex
+								why = "the validated map is not the one passed to the builder"
 							}
-						}
-					}
-					if val == nil {
-						return
-					}
-					vcan := c.canon(val)
-					bypass := c.emptyStringEdges(cb, vcan)
-					if okv != nil {
-						for e := range edgesWhere(cb, func(a Atom, holds bool) bool { return a.Kind == "bool" && !holds && strip(a.X) == okv }) {
-							bypass[e] = true
-						}
-					}
-					if g, w := c.epicGuardOK(cb, ch.CallInCallback.Block(), vcan, bypass); g {
-						// the guarded map is the one handed down the chain
-						handed := false
-						for _, a := range ch.CallInCallback.Common().Args {
-							if c.canon(a) == c.canon(lk.X) {
-								handed = true
-							}
-						}
-						if handed {
-							okGuard = true
 						} else {
-							why = "the validated map is not the one passed to the builder"
+							why = w
 						}
-					} else {
-						why = w
+					})
+				}
+				guardIn(cb, []*ssa.BasicBlock{ch.CallInCallback.Block()}, nil)
+				if !okGuard {
+					// the validation may live in a private helper of the callback whose success dominates the builder call
+					for _, hc := range callsIn(cb) {
+						h := hc.Common().StaticCallee()
+						hv, isCall := hc.(*ssa.Call)
+						if h == nil || !isCall || h.Blocks == nil || !c.InModule(h) || c.opaqueHelper(h) || h == f {
+							continue
+						}
+						res := h.Signature.Results()
+						if res.Len() == 0 || res.At(res.Len()-1).Type().String() != "error" {
+							continue
+						}
+						if !mustPassEdges(cb, ch.CallInCallback.Block(), nilErrEdges(cb, hv)) {
+							continue
+						}
+						e := env{}
+						for i, prm := range h.Params {
+							if i < len(hv.Call.Args) {
+								e[prm] = hv.Call.Args[i]
+							}
+						}
+						var sites []*ssa.BasicBlock
+						for _, r := range c.nonFailingReturns(h) {
+							sites = append(sites, r.Block())
+						}
+						guardIn(h, sites, e)
+						if okGuard {
+							break
+						}
 					}
-				})
+				}
 				if okGuard {
 					c.ok(fn, sub, pos, "callback "+cn+" validates updates[\"epic\"] (found in graph.Tasks, is an epic; bypass empty/absent) before building events")
 					continue
@@ -392,10 +434,30 @@ func (c *Ctx) chainLacksKey(ch cbChain, key string) (bool, string) {
 				}
 			}
 			if !del {
+				// a module constructor (newTaskFlagUpdates): the key may be removed inside it, before each return
+				if cl, isCall := v.(*ssa.Call); isCall {
+					if cal := cl.Call.StaticCallee(); cal != nil && cal.Blocks != nil && c.InModule(cal) && cal.Signature.Results().Len() == 1 {
+						for _, r := range returnsOf(cal) {
+							work = append(work, item{returnedValue(r, 0), r, it.d + 1})
+						}
+						continue
+					}
+				}
 				return false, fmt.Sprintf("map created at %s reaches the callback without delete(m,%q)", c.Pos(vin.Pos()), key)
 			}
 			nOK++
 		default:
+			// a field of a parameter struct / local struct: every value stored into that field
+			if os, ok := fieldOrigins(v, 0); ok {
+				if len(os) == 0 {
+					nOK++ // only ever the zero value: a nil map
+					continue
+				}
+				for _, o := range os {
+					work = append(work, item{o.V, o.At, it.d + 1})
+				}
+				continue
+			}
 			return false, "update map origin not understood: " + c.canon(v)
 		}
 	}
@@ -469,7 +531,7 @@ func ruleVD9(c *Ctx) {
 		return
 	}
 	blk := acc.Block()
-	boolCall := func(name string, want bool, argPred func([]ssa.Value) bool) map[edge]bool {
+	boolCall := func(name string, want bool, argPred func([]ssa.Value, env) bool) map[edge]bool {
 		return edgesWhere(vrp, func(a Atom, holds bool) bool {
 			if a.Kind != "bool" || holds != want {
 				return false
@@ -478,10 +540,11 @@ func ruleVD9(c *Ctx) {
 			if cl == nil || calleeFullName(&cl.Call) != name {
 				return false
 			}
-			return argPred == nil || argPred(cl.Call.Args)
+			return argPred == nil || argPred(cl.Call.Args, a.Env)
 		})
 	}
-	// returned path is filepath.Clean(param) and all checks use it
+	// returned path is filepath.Clean(param) and all checks use it (checks may live in private helpers: their
+	// parameters are read through the call's arguments)
 	rv := resolve(acc.Results[0])
 	cleanOK := false
 	var cleaned ssa.Value
@@ -492,34 +555,46 @@ func ruleVD9(c *Ctx) {
 		}
 	}
 	c.check(cleanOK, fn, "returns-cleaned", c.Pos(acc.Pos()), "returns filepath.Clean(relPath)", "does not return filepath.Clean of its argument")
-	onClean := func(a []ssa.Value) bool { return cleaned != nil && len(a) > 0 && strip(a[0]) == cleaned }
+	isCleaned := func(v ssa.Value, e env) bool {
+		return cleaned != nil && (strip(v) == cleaned || strip(resolveEnv(v, e)) == cleaned || resolve(resolveEnv(v, e)) == cleaned)
+	}
+	onClean := func(a []ssa.Value, e env) bool { return len(a) > 0 && isCleaned(a[0], e) }
 	type req struct {
 		key   string
 		edges map[edge]bool
 		bad   string
 	}
-	dotdot := func(a []ssa.Value) bool { return onClean(a) && len(a) > 1 && strings.HasSuffix(c.canon(a[1]), `.."`) }
-	ergoPrefix := func(a []ssa.Value) bool { return onClean(a) && len(a) > 1 && strings.Contains(c.canon(a[1]), ".ergo") }
-	eqErgo := edgesWhere(vrp, func(a Atom, holds bool) bool {
-		return a.Kind == "const" && !holds && constStr(a.C) == ".ergo" && cleaned != nil && strip(a.X) == cleaned
-	})
-	var statCall *ssa.Call
-	for _, call := range callsNamed(vrp, "os.Stat", "os.Lstat") {
-		statCall, _ = call.(*ssa.Call)
+	dotdot := func(a []ssa.Value, e env) bool {
+		return onClean(a, e) && len(a) > 1 && strings.HasSuffix(c.canon(a[1]), `.."`)
 	}
-	statOK := map[edge]bool{}
+	ergoPrefix := func(a []ssa.Value, e env) bool {
+		return onClean(a, e) && len(a) > 1 && strings.Contains(c.canon(a[1]), ".ergo")
+	}
+	eqErgo := edgesWhere(vrp, func(a Atom, holds bool) bool {
+		return a.Kind == "const" && !holds && constStr(a.C) == ".ergo" && isCleaned(a.X, a.Env)
+	})
 	joinedOK := false
-	if statCall != nil {
-		statOK = nilErrEdges(vrp, statCall)
-		if j, _ := callOf(statCall.Call.Args[0]); j != nil && calleeFullName(&j.Call) == "path/filepath.Join" {
+	statOK := edgesWhere(vrp, func(a Atom, holds bool) bool {
+		if a.Kind != "nil" || !holds {
+			return false
+		}
+		cl, _ := callOf(a.X)
+		if cl == nil {
+			return false
+		}
+		if n := calleeFullName(&cl.Call); n != "os.Stat" && n != "os.Lstat" {
+			return false
+		}
+		if j, _ := callOf(resolveEnv(cl.Call.Args[0], a.Env)); j != nil && calleeFullName(&j.Call) == "path/filepath.Join" {
 			el := variadicElems(j.Call.Args)
-			if len(el) == 2 && cleaned != nil && strip(el[1]) == cleaned {
-				if _, isParam := resolve(el[0]).(*ssa.Parameter); isParam {
+			if len(el) == 2 && isCleaned(el[1], a.Env) {
+				if _, isParam := resolve(resolveEnv(el[0], a.Env)).(*ssa.Parameter); isParam {
 					joinedOK = true
 				}
 			}
 		}
-	}
+		return true
+	})
 	invoke := func(method string, want bool) map[edge]bool {
 		return edgesWhere(vrp, func(a Atom, holds bool) bool {
 			if a.Kind != "bool" || holds != want {
